@@ -154,6 +154,9 @@ func GenWorld(r *rand.Rand, tmp string, prefix string, o WorldOpts) (*World, err
 			w.Segs = append(w.Segs, t)
 		}
 	}
+	for _, s := range w.Segs {
+		s.X.Index() // models are read-only afterwards (safe to share between goroutines)
+	}
 	return w, nil
 }
 
